@@ -41,6 +41,8 @@ CONSTANTS Queues,          \* set of queue ids 0..n-1
           AllowExplicit,   \* explicit positions offered
           MaxDamage,       \* frames that may be damaged at rest (after a clean close)
           DamageKinds,     \* subset of {"crc", "type", "zero"}
+          WithPersistCalls,    \* explicit persist(Flush) / persist(FlushAndFsync) calls are offered
+          WithNoops,           \* rejected and no-op calls are offered (C13 at the design level)
           MinOpsBeforeCrash,   \* crashes are enabled once this many calls have begun (0 everywhere except the simulation configs)
           CrcQuarantinesBlock  \* FALSE: the code (a CRC failure drops the frame only); TRUE: self-test of the C09 predicate
 
@@ -117,9 +119,13 @@ WriteEntry(en, f, off, trk) ==
   LET s == SplitEntry(f, off, EntryLen(en), trk) IN
     [effs |-> << <<"ENTRY", en>> >> \o s.effs, file |-> s.file, off |-> s.off, tracked |-> s.tracked]
 
-PolicyEffs(f) ==
+(* persist_on_policy.  OnDelay persists or not depending on the clock: `due` is chosen          *)
+(* nondeterministically at CallBegin; it promises nothing (C03 lists no promise for OnDelay).   *)
+PolicyEffs(f, due) ==
   CASE Policy = "always_flush" -> << Eff("FL", f, -1, 0, 0), <<"PROMISE", {"process"}>> >>
     [] Policy = "always_fsync" -> PersistEffs(f) \o << <<"PROMISE", {"process", "power"}>> >>
+    [] Policy = "on_delay_flush" /\ due -> << Eff("FL", f, -1, 0, 0) >>
+    [] Policy = "on_delay_fsync" /\ due -> PersistEffs(f)
     [] OTHER -> <<>>
 
 (* run_gc_if_necessary: m is the memory AFTER the call's in-memory update, *)
@@ -140,19 +146,27 @@ Orders(S) == IF S = {} THEN {<<>>} ELSE
       Perms(T) == IF T = {} THEN {<<>>} ELSE UNION { {<<x>> \o p : p \in Perms(T \ {x})} : x \in T }
   IN Perms(S)
 
-Plan(c, qorder) ==
+PlanEntry(c, qorder, due) ==
   LET en == EntryOf(c, mem)
       w == WriteEntry(en, wfile, woff, tracked)
       m2 == MemApply(mem, c, wfile)
       memE == << <<"MEM", m2>> >>
       both == {"process", "power"}
   IN CASE c.op = "create" -> w.effs \o PersistEffs(w.file) \o << <<"PROMISE", both>> >> \o memE
-       [] c.op = "append" -> w.effs \o PolicyEffs(w.file) \o memE
+       [] c.op = "append" -> w.effs \o PolicyEffs(w.file, due) \o memE
        [] c.op = "truncate" ->
-            LET g == GcPlan(m2, w.tracked, w.file, w.off, qorder) IN w.effs \o memE \o g.effs \o PolicyEffs(g.file)
+            LET g == GcPlan(m2, w.tracked, w.file, w.off, qorder) IN w.effs \o memE \o g.effs \o PolicyEffs(g.file, due)
        [] c.op = "delete" ->
             LET g == GcPlan(m2, w.tracked, w.file, w.off, qorder) IN
               w.effs \o memE \o g.effs \o PersistEffs(g.file) \o << <<"PROMISE", both>> >>
+
+(* an explicit persist call: c.p = 0 Flush, 1 FlushAndFsync; a rejected / no-op call does nothing *)
+Plan(c, qorder, due) ==
+  IF c.op = "persist" THEN
+       (IF c.p = 1 THEN PersistEffs(wfile) \o << <<"PROMISE", {"process", "power"}>> >>
+        ELSE << Eff("FL", wfile, -1, 0, 0), <<"PROMISE", {"process"}>> >>)
+  ELSE IF IsRejectOrNoop(AbsOf(mem), c) THEN <<>>
+  ELSE PlanEntry(c, qorder, due)
 
 -----------------------------------------------------------------------------
 (* Recovery: the reader over an image.                                     *)
@@ -241,6 +255,16 @@ Init ==
 
 (* The calls offered in a state (only calls that really execute: rejected  *)
 (* and no-op calls are UNCHANGED by construction, see CallNoop)            *)
+(* every rejected / no-op shape (C13): missing queue, existing queue, retry of the last position, *)
+(* position in the past, empty batch                                                             *)
+NoopCalls(A) ==
+       {[NoCall EXCEPT !.op = "create", !.q = q] : q \in {q \in Queues : A[q].a}}
+  \cup {[NoCall EXCEPT !.op = op, !.q = q, !.p = 1, !.batch = IF op = "append" THEN << <<nops + 1, 2>> >> ELSE <<>>] :
+          op \in {"delete", "truncate", "append"}, q \in {q \in Queues : ~A[q].a}}
+  \cup UNION { {[NoCall EXCEPT !.op = "append", !.q = q, !.pos = pos, !.batch = << <<nops + 1, 2>> >>] :
+                  pos \in {x \in {A[q].next - 1, A[q].next - 2} : x >= 0}} : q \in {q \in Queues : A[q].a} }
+  \cup {[NoCall EXCEPT !.op = "append", !.q = q] : q \in {q \in Queues : A[q].a}}
+
 Ops ==
   LET A == AbsOf(mem) IN
        {[NoCall EXCEPT !.op = "create", !.q = q] : q \in {q \in Queues : ~A[q].a}}
@@ -250,13 +274,17 @@ Ops ==
                   pos \in {-1} \cup (IF AllowExplicit THEN {A[q].next + 2} ELSE {})} : q \in {q \in Queues : A[q].a} }
   \cup UNION { {[NoCall EXCEPT !.op = "truncate", !.q = q, !.p = p] :
                   p \in {x \in {A[q].next - 2, A[q].next - 1, A[q].next + 1} : x >= 0}} : q \in {q \in Queues : A[q].a} }
+  \cup (IF WithPersistCalls THEN {[NoCall EXCEPT !.op = "persist", !.p = a] : a \in {0, 1}} ELSE {})
+  \cup (IF WithNoops THEN NoopCalls(A) ELSE {})
 
 CallBegin ==
   /\ mode = "Ready" /\ todo = <<>>
   /\ IF post = 0 THEN nops < MaxOps ELSE post <= MaxPost
   /\ \E c \in Ops :
-       \E qorder \in Orders(EmptyQs(MemApply(mem, c, wfile))) :
-          /\ todo' = Plan(c, qorder) \o << <<"RET">> >>
+       \E qorder \in Orders(IF c.op \in {"truncate", "delete"} /\ ~IsRejectOrNoop(AbsOf(mem), c)
+                              THEN EmptyQs(MemApply(mem, c, wfile)) ELSE {}),
+          due \in (IF Policy \in {"on_delay_flush", "on_delay_fsync"} /\ c.op \in {"append", "truncate"} THEN BOOLEAN ELSE {FALSE}) :
+          /\ todo' = Plan(c, qorder, due) \o << <<"RET">> >>
           /\ inflight' = c
   /\ nops' = nops + 1 /\ post' = IF post > 0 THEN post + 1 ELSE 0
   /\ lastOs' = 0 /\ wstart' = wsum /\ cfile' = wfile
@@ -388,7 +416,7 @@ StepReturn ==
        /\ done' = st
        /\ pendP' = AddPend(pendP, st) /\ pendW' = AddPend(pendW, st)
        /\ assigned' = AssignedAfter(assigned, done, inflight)
-       /\ batches' = IF inflight.op = "append"
+       /\ batches' = IF inflight.op = "append" /\ ~IsRejectOrNoop(done, inflight)
                      THEN Append(batches, [q |-> inflight.q,
                                            recs |-> LET s == AppendStart(done[inflight.q], inflight) IN
                                                       [i \in 1..Len(inflight.batch) |-> <<s + i - 1, inflight.batch[i][1], inflight.batch[i][2]>>]])
@@ -562,13 +590,22 @@ BatchAtomic ==
 (* the writer's file, none older than the oldest attribution / the file at call start          *)
 MinOf(S) == CHOOSE x \in S : \A y \in S : x <= y
 FilesBound ==
-  (mode = "Ready" /\ todo = <<>> /\ lastRet.op \in {"truncate", "delete"} /\ ncrash = 0) =>
+  (mode = "Ready" /\ todo = <<>> /\ lastRet.op \in {"truncate", "delete"} /\ wsum # wstart /\ ncrash = 0) =>
      LET lo == MinOf(exists)
          refs == QRefs(mem)
          bound == IF refs = {} THEN cfile ELSE FrMin(MinOf(refs), cfile)
      IN /\ exists = lo..wfile
         /\ tracked = exists
         /\ lo >= bound
+
+(* C13: a rejected or no-op call leaves no trace: when it returns, nothing was written, the cursor, *)
+(* the files and the memory are what they were when it began                                       *)
+NoTrace ==
+  (mode = "Ready" /\ todo = <<>> /\ lastRet.op # "none" /\ lastRet.op # "persist" /\ ncrash = 0 /\ post = 0) =>
+     TRUE
+NoTraceStep ==
+  (mode = "Ready" /\ todo # <<>> /\ inflight.op \notin {"none", "persist"} /\ IsRejectOrNoop(done, inflight)) =>
+     (todo = << <<"RET">> >> /\ wsum = wstart)
 
 (* C15: the running sum of written bytes is the stream distance *)
 BytesTrack == (ncrash = 0 /\ post = 0) => wsum = wfile * FileSize + woff
